@@ -16,14 +16,14 @@ THEOREMS = ["Mpir.AliasMem.ofInts_ok",
             "Mpir.AliasMem.mod_ptr_spec", "Mpir.AliasMem.divexact_ptr_spec", "Mpir.AliasMem.div3_alias", "Mpir.AliasMem.div_q_ui_ptr_spec",
             "Mpir.AliasMem.mul_2exp_ptr_spec", "Mpir.AliasMem.tdiv_q_2exp_ptr_spec", "Mpir.AliasMem.cfdiv_q_2exp_ptr_spec",
             "Mpir.AliasMem.mpz_and_ptr_spec", "Mpir.AliasMem.mpz_xor_ptr_spec", "Mpir.AliasMem.logic_ptr_spec", "Mpir.AliasMem.mpz_com_ptr_spec",
-            "Mpir.AliasMem.sqrtrem_ptr_spec", "Mpir.AliasMem.mpz_neg_ptr_spec", "Mpir.AliasMem.mpz_abs_ptr_spec", "Mpir.AliasMem.mpz_set_ptr_spec",
+            "Mpir.AliasMem.sqrtrem_ptr_spec", "Mpir.AliasMem.mpz_gcd_ptr_spec", "Mpir.AliasMem.mpz_neg_ptr_spec", "Mpir.AliasMem.mpz_abs_ptr_spec", "Mpir.AliasMem.mpz_set_ptr_spec",
             "Mpir.Mpf.mpf_neg_alias", "Mpir.Mpf.mpf_abs_alias", "Mpir.Mpf.mpf_add_alias", "Mpir.Mpf.mpf_sub_alias",
             "Mpir.Mpf.mpf_add_ui_alias", "Mpir.Mpf.mpf_sub_ui_alias", "Mpir.Mpf.mpf_ui_sub_alias"]
 PINS = [("mpz/tdiv_qr.c", None), ("mpz/tdiv_q.c", None), ("mpz/tdiv_r.c", None),
         ("mpz/fdiv_qr.c", None), ("mpz/cdiv_qr.c", None), ("mpz/fdiv_q.c", None), ("mpz/cdiv_q.c", None),
         ("mpz/fdiv_r.c", None), ("mpz/cdiv_r.c", None), ("mpz/mod.c", None), ("mpz/divexact.c", None), ("mpz/tdiv_q_ui.c", None), ("mpz/fdiv_q_ui.c", None), ("mpz/cdiv_q_ui.c", None),
         ("mpz/mul_2exp.c", None), ("mpz/tdiv_q_2exp.c", None), ("mpz/cfdiv_q_2exp.c", None),
-        ("mpz/sqrtrem.c", None), ("mpz/neg.c", None), ("mpz/abs.c", None), ("mpz/and.c", None), ("mpz/ior.c", None), ("mpz/xor.c", None), ("mpz/com.c", None),
+        ("mpz/sqrtrem.c", None), ("mpz/gcd.c", None), ("mpz/neg.c", None), ("mpz/abs.c", None), ("mpz/and.c", None), ("mpz/ior.c", None), ("mpz/xor.c", None), ("mpz/com.c", None),
         ("mpf/neg.c", None), ("mpf/abs.c", None), ("mpf/add.c", None), ("mpf/sub.c", None), ("mpf/add_ui.c", None),
         ("mpf/sub_ui.c", None), ("mpf/ui_sub.c", None),
         ("mpz/realloc.c", None), ("gmp-impl.h", "MPZ_REALLOC"), ("gmp-impl.h", "MPZ_TMP_INIT"),
@@ -174,3 +174,20 @@ def gen_ops(rng, tier, ctx=None):
                     elif k == 2: v[u] = 0
                     if rng.random() < 0.03: d = 0
                     yield "alias_%s %x %x %x %s" % (fn, w, u, d, " ".join(hx(x) for x in v))
+    # mpz_gcd: every (g, u, v); zero operands, one-limb operands, common low zero limbs / bits, common odd factor
+    for g in range(4):
+        for a in range(4):
+            for b in range(4):
+                for _ in range(reps * 3):
+                    v = _values(rng, big)
+                    k = rng.randrange(6)
+                    c = _mag(rng, rng.choice([1, 1, 2])) | 1
+                    sh = rng.choice([0, 1, 63, 64, 65, 130])
+                    if k == 0: v[a] = 0
+                    elif k == 1: v[b] = 0
+                    elif k == 2: v[a] = rng.choice([1, -1]) * rng.choice([1, 2, 6, (1 << 64) - 1, 1 << 63])
+                    elif k == 3: v[b] = rng.choice([1, -1]) * rng.choice([1, 2, 6, (1 << 64) - 1, 1 << 63])
+                    else:
+                        v[a] = rng.choice([1, -1]) * ((c * (_mag(rng, rng.choice([1, 2, 3])) | 1)) << (sh + rng.choice([0, 3, 64])))
+                        if a != b: v[b] = rng.choice([1, -1]) * ((c * (_mag(rng, rng.choice([1, 2, 4])) | 1)) << (sh + rng.choice([0, 5, 128])))
+                    yield "alias_gcd %x %x %x 0 %s" % (g, a, b, " ".join(hx(x) for x in v))
